@@ -53,8 +53,11 @@ func ZZH_C14_block() {
 	total := sum()
 	nonces := []uint64{0, 0}
 	for i := 0; i < zz.Tier(2, 3); i++ {
-		fi := zz.Choice("from", 2)
-		ti := zz.Choice("to", 4)
+		fi, ti := 0, 1
+		if i < 2 {
+			fi = zz.Choice("from", 2)
+			ti = zz.Choice("to", 4)
+		} // (thorough: the third transfer goes from the first to the second account; amount symbolic)
 		if fi == ti {
 			continue
 		}
